@@ -18,6 +18,7 @@ import tempfile
 from ..cliharness import cli_formula, run_main
 from ..refmodels import c15_ref
 
+PYTHON_O_STRIDE = {"quick": 4, "thorough": 2}      # every n-th case is repeated in an interpreter started with -O
 RULE = ("structured command = (tool, sub-command, option subset, numbers, graph specifications, -T chain): all 33 formula sub-commands "
         "with the option subsets and parameter grids of their help texts, deterministic and random graph constructions (saved and "
         "read back), graph files written by the harness, cnfgen vs formula_class=CNF and pbgen vs formula_class=OPB, -T chains of "
